@@ -294,8 +294,7 @@ func (fc *fnCtx) blockingCall(st *State, fr *frame, site string, spec *effSpec, 
 // lockInvariant (interference pass). After Lock: everything the mutex guards may have been changed by other
 // threads since this thread last looked — the guarded fields get fresh values constrained only by the type's
 // lock invariant. Before Unlock: the lock invariant must hold again (obligation).
-func (fc *fnCtx) lockInvariant(st *State, fr *frame, call *ssa.Call, site string, release bool) {
-	c := call.Common()
+func (fc *fnCtx) lockInvariant(st *State, fr *frame, c *ssa.CallCommon, site string, release bool) {
 	if len(c.Args) == 0 {
 		return
 	}
@@ -334,7 +333,7 @@ func (fc *fnCtx) lockInvariant(st *State, fr *frame, call *ssa.Call, site string
 	sc := fc.specCtxFor(st, fr)
 	sc.vars["this"] = Val{T: owner.T, S: SU, GT: fa.X.Type()}
 	for _, inv := range ts.LockInv {
-		name := fc.oblName(fr, fmt.Sprintf("lockinv%d@%s", inv.Ord, site))
+		name := fc.oblName(fr, fmt.Sprintf("lockinv%d@unlock", inv.Ord)) // one obligation per function, one query per release point
 		g := fc.evalBoolClause(sc, inv, name)
 		if g == "" {
 			continue
